@@ -855,6 +855,39 @@ def t_second_pass(facts, res, tier):
             cur["paths"] += 1
             if may_second and cur["bad"] is None:
                 cur["bad"] = ev
+    # nested evaluations must be told that this is the second pass
+    import genmodel as _gm
+    EVALUATORS = {f2["name"] for f2 in _gm.gen_fns(facts) if f2["name"].startswith("generate_") and
+                  any(p["name"].replace("mut ", "").strip() in ("expr", "condition", "alternatives") and "Expr" in p["ty"] and "ExprType" not in p["ty"] for p in f2["params"])}
+    EVALUATORS.discard("generate_sizeof")   # sizeof does not evaluate its operand
+    nested = {}
+    pnames = [p["name"].replace("mut ", "").strip() for p in fn["params"] if p["name"] != "self"]
+    for kind, val, st in genmodel.fn_paths(facts, fn):
+        d = genmodel.domain_of(st, Sym("second_time", "bool"), facts, universe=[True, False])
+        if not (d is None or True in d):
+            continue
+        for ev in st.events:
+            if ev["kind"] != "call" or ev["callee"] not in EVALUATORS:
+                continue
+            g = ev["callee"]
+            gp = [p["name"].replace("mut ", "").strip() for p in facts.fn(g, genmodel.GEN_QUAL)["params"] if p["name"] != "self"]
+            if "second_time" in gp:
+                a = ev["args"][gp.index("second_time")] if gp.index("second_time") < len(ev["args"]) else None
+                from walker import Const as _C
+                okk = (isinstance(a, Sym) and a.key == "second_time") or (isinstance(a, _C) and a.v is True)
+                shape = "second_time" if isinstance(a, Sym) and a.key == "second_time" else (repr(a.v).lower() if isinstance(a, _C) else (a.key if isinstance(a, Sym) else "?"))
+                key = "T-SECOND-PASS:nested:%s(second_time=%s)" % (g, shape)
+            else:
+                okk = False
+                key = "T-SECOND-PASS:nested:%s(no such parameter)" % g
+            cur = nested.setdefault(key, {"ok": okk, "node": ev["node"], "paths": 0})
+            cur["paths"] += 1
+    for key, d in sorted(nested.items()):
+        res.inst(key, True, {"paths": d["paths"]})
+        if not d["ok"]:
+            res.fail(key, facts.where(fn, d["node"]),
+                     "on a path where this may be the high-byte pass of a 16-bit evaluation, generate_expr starts the nested evaluation `%s` without telling it "
+                     "so: function calls and increments inside that operand are emitted again (`s = (f(), 3)`, `s = c ? f() : 1`)" % key.split("nested:")[1])
     for key, d in sorted(found.items()):
         res.inst(key, True, {"paths": d["paths"]})
         if d["bad"] is not None:
